@@ -243,6 +243,7 @@ class C02(Property):
         "regex/int()/startswith re-implemented by hand in Flatland/Flat.lean (Nd table and int digit limit regenerated from the interpreter)",
     ]
     assumptions = [
+        "separators beginning with a decimal digit: only totality and the bound are checked (oracle only; the Lean model of the index recogniser reads the maximal digit run, the regex backtracks)",
         "Addresses = reaches a leaf name or 'list-path sep digits' (a key continuing with junk after a list index still addresses the slot)",
         "Array members are scalars (library assertion); Dict fields are named",
     ]
@@ -300,6 +301,9 @@ class C02(Property):
                 "_env": fl.make_env(kinds, texts, fl.observed_compounds(el, schema)),
                 "_lens": list_lengths(el, schema)}
 
+    def has_model(self, case):
+        return not fl.digit_sep(case["sep"])
+
     def model_input(self, case, obs):
         return {"schema": case["schema"], "sep": case["sep"], "pairs": case["pairs"],
                 "env": (obs or {}).get("_env") or fl.make_env(case["kinds"], [], [])}
@@ -321,6 +325,11 @@ class C02(Property):
                 fails.append({"clause": "bounded", "observed": n, "expected": "<= %d" % mx})
                 break
         full = fl.extract(el, schema)
+        if fl.digit_sep(sep):
+            # with a separator that starts with a decimal digit, which index a key spells depends on regex
+            # backtracking; the independent address classifier below does not model that, so only
+            # totality and the bound are decided for such cases
+            return fails
         # confined: a pair that addresses nothing has no effect
         for i, (k, v) in enumerate(pairs):
             if not addresses(schema, sep, k):
